@@ -49,6 +49,8 @@ func counts(reg *prometheus.Registry, label string) map[string]map[string]int {
 	return out
 }
 
+type ownCtxKey struct{}
+
 var pubLayers = []string{"transform", "delay", "metrics", "metrics2"}
 
 // ---- (1) publisher stacks -----------------------------------------------------------------------------------
@@ -94,7 +96,10 @@ func pubStackScenario(depth int) *explore.Scenario {
 		for b := 0; b < batches; b++ {
 			var batch []*message.Message
 			for i := 0; i < size; i++ {
-				batch = append(batch, hx.Msg(fmt.Sprintf("b%dm%d", b, i)))
+				m := hx.Msg(fmt.Sprintf("b%dm%d", b, i))
+				// every message has its own context (values, cancellation): a decorator may add to it, not replace it
+				m.SetContext(context.WithValue(context.Background(), ownCtxKey{}, m.UUID))
+				batch = append(batch, m)
 			}
 			sent = append(sent, batch)
 			results = append(results, pub.Publish("topic", batch...))
@@ -113,6 +118,9 @@ func pubStackScenario(depth int) *explore.Scenario {
 				continue
 			}
 			for i, m := range c.Msgs {
+				if got := m.Context().Value(ownCtxKey{}); got != m.UUID {
+					vs.Fail("transparent", "%s: call %d message %d (%s) left the stack with the context of %v", cfg, b, i, m.UUID, got)
+				}
 				if m != sent[b][i] {
 					vs.Fail("transparent", "%s: call %d message %d is not the object that was published (order or identity changed)", cfg, b, i)
 				}
